@@ -47,6 +47,11 @@ def linearise(case, out):
             if acq and c["val"] >= -1:
                 items.append((acq[0], {"k": "Read", "t": t, "c": c["c"], "val": c["val"]}))
                 stats["reads"] += 1
+        elif c["k"] == "Scan":
+            acq = [e[0] for e in by_thread.get(t, []) if c["s0"] < e[0] < c["s1"] and e[2] == "r_acq" and e[3] == tx]
+            if acq:
+                items.append((acq[0], {"k": "Scan", "t": t, "ok": c["ok"], "cnt": c["cnt"], "nl": c["nl"]}))
+                stats["scans"] = stats.get("scans", 0) + 1
         elif c["k"] == "ValidateTx":
             acq = [e[0] for e in by_thread.get(t, []) if c["s0"] < e[0] < c["s1"] and e[2] == "r_acq" and e[3] == tx]
             if acq:
